@@ -323,22 +323,33 @@ def first_error(out):
 CACHE_DIR = os.path.join(os.path.dirname(os.path.dirname(os.path.abspath(__file__))), ".cache", "kani-results")
 
 
-def _overlay_hash():
+_OVL_CACHE = {}
+
+
+def _overlay_hash(own_file=None):
+    """hash of what a harness's verdict depends on besides /repo: its own contract file, the
+    shared spec / model files, the support crate and the runner"""
     import hashlib
+    if own_file in _OVL_CACHE:
+        return _OVL_CACHE[own_file]
     h = hashlib.sha256()
     base = os.path.dirname(os.path.dirname(os.path.abspath(__file__)))
-    for root in (OVERLAY, os.path.join(base, "kani", "support")):
-        for dp, dn, fn in sorted(os.walk(root)):
-            dn.sort()
-            for f in sorted(fn):
-                if f == "Cargo.lock" or "/target" in dp:
-                    continue
-                p = os.path.join(dp, f)
-                h.update(os.path.relpath(p, base).encode())
-                h.update(open(p, "rb").read())
+    files = []
+    for dp, dn, fn in sorted(os.walk(os.path.join(base, "kani", "support"))):
+        dn.sort()
+        for f in sorted(fn):
+            if f != "Cargo.lock" and "/target" not in dp:
+                files.append(os.path.join(dp, f))
+    for rel in overlay_files():
+        if os.path.basename(rel) in ("verif_spec.rs", "verif_models.rs") or rel == own_file:
+            files.append(os.path.join(OVERLAY, rel))
     for f in ("kanirun.py", "common.py"):
-        h.update(open(os.path.join(base, "vlib", f), "rb").read())
-    return h.hexdigest()
+        files.append(os.path.join(base, "vlib", f))
+    for p in files:
+        h.update(os.path.relpath(p, base).encode())
+        h.update(open(p, "rb").read())
+    _OVL_CACHE[own_file] = h.hexdigest()
+    return _OVL_CACHE[own_file]
 
 
 def _cache_key(tree, ovl, o, row, timeout):
@@ -364,11 +375,10 @@ def run_selection(scratch, sel, tier, total_jobs=16):
         # hash of the pristine copy (taken before the overlay was applied: the overlay writes a
         # scratch-specific path into Cargo.toml); the overlay itself is hashed separately
         tree = getattr(scratch, "pristine_hash", None) or tree_hash(scratch.repo)
-        ovl = _overlay_hash()
         os.makedirs(CACHE_DIR, exist_ok=True)
         rest = []
         for o, r in sel:
-            k = _cache_key(tree, ovl, o, r, 0)
+            k = _cache_key(tree, _overlay_hash(o["file"]), o, r, 0)
             keys[(o["id"], r)] = k
             f = os.path.join(CACHE_DIR, k + ".json")
             if os.path.exists(f):
